@@ -15,6 +15,7 @@ state; partition consistency (one go == chained pieces, bitwise, every scheme);
 labelled numerical check of the strong order on refined Brownian paths.
 """
 import json
+import re
 import os
 import random
 import warnings
@@ -1448,7 +1449,19 @@ def run(ctx):
         mods = ["QV." + p_[:-2].replace("/", ".") for p_ in props]
         rc, out = vlib.sh(["timeout", "900", "coqchk", "-silent", "-o", "-Q", ".", "QV"] + mods,
                           timeout=930, cwd=vlib.COQ)
-        ok = rc == 0 and "Axioms: <none>" in out
+        # coqchk lists, for the whole loaded context, the kernel primitives of
+        # Int63 / PrimFloat (pulled in by mathcomp.algebra_tactics' `ring`,
+        # used in Proofs/C17_sse_norm.v) under "Axioms"; they are primitives of
+        # the kernel, not assumptions (Print Assumptions of every theorem is
+        # closed).  Anything else listed there fails the obligation.
+        m_ax = re.search(r"\* Axioms:(.*?)\n\s*\n\* Constants", out, flags=re.S)
+        listed = [x.strip() for x in (m_ax.group(1) if m_ax else "?").split("\n") if x.strip()]
+        prim = ("Coq.Numbers.Cyclic.Int63.PrimInt63.", "Coq.Floats.PrimFloat.")
+        other = [x for x in listed if x != "<none>" and not x.startswith(prim)]
+        ok = rc == 0 and m_ax is not None and not other
+        if ok and listed != ["<none>"]:
+            ctx.notes.append("coqchk context lists %d Int63/PrimFloat kernel primitives "
+                             "(from mathcomp.algebra_tactics), no other axiom" % len(listed))
         ctx.add_obligation("coqchk " + " ".join(mods), ok)
         ctx.cov["checker_cmd"] += "; coqchk -o -Q . QV " + " ".join(mods)
         if not ok:
